@@ -42,17 +42,34 @@ class Recorder:
         self._orig = (R._send_message, R._receive_message, R._prss_uci, asyncoro._ProgramCounterWrapper)
         o_send, o_recv, o_uci, o_wrap = self._orig
 
+        def origin(p):
+            """who is running on the ambient counter: None inside a pc-carrying step, 'main' for the
+            party's main program, otherwise the identity of the (no-pc) task or callback"""
+            if rec.cur_task[p] is not None or not rec.track_pc:
+                return None
+            try:
+                tk = asyncio.current_task()
+            except RuntimeError:
+                tk = None
+            if tk is None:
+                return 'callback'
+            if getattr(tk, '_verif_main', None) is not None:
+                return 'main'
+            return f'task{id(tk)}'
+
         def _send_message(self_, peer_pid, data):
-            rec.ev[self_.pid].append(('S', peer_pid, self_._program_counter[0], len(data), sys._getframe(1).f_code.co_name))
+            rec.ev[self_.pid].append(('S', peer_pid, self_._program_counter[0], len(data),
+                                      sys._getframe(1).f_code.co_name, origin(self_.pid)))
             return o_send(self_, peer_pid, data)
 
         def _receive_message(self_, peer_pid):
-            rec.ev[self_.pid].append(('R', peer_pid, self_._program_counter[0], sys._getframe(1).f_code.co_name))
+            rec.ev[self_.pid].append(('R', peer_pid, self_._program_counter[0],
+                                      sys._getframe(1).f_code.co_name, origin(self_.pid)))
             return o_recv(self_, peer_pid)
 
         def _prss_uci(self_):
             r = o_uci(self_)
-            rec.ev[self_.pid].append(('U', self_._program_counter[0]))
+            rec.ev[self_.pid].append(('U', self_._program_counter[0], origin(self_.pid)))
             return r
 
         R._send_message = _send_message
@@ -68,7 +85,8 @@ class Recorder:
                     p = rt.pid
                     w.vid = rec.next_id[p]
                     rec.next_id[p] += 1
-                    rec.ev[p].append(('K', w.vid, w.pc[0], w.pc[1]))
+                    rec.ev[p].append(('K', w.vid, w.pc[0], w.pc[1], origin(p),
+                                      getattr(getattr(coro, 'cr_code', None), 'co_name', '?')))
 
                 def __await__(w):
                     # same logic as the original, with begin/end markers around each step
@@ -105,3 +123,87 @@ def sends_of(events):
 
 def recvs_of(events):
     return [(e[1], e[2]) for e in events if e[0] == 'R']
+
+
+def to_steps(events):
+    """Convert one party's recorded event stream into the model's step list and the expected answer.
+
+    Returns (request_line, expected_line, wf_violations) or (None, reason, []) if the stream has a shape
+    the model does not cover (nested steps)."""
+    path = {}          # vid -> path tuple
+    nforks = {}        # context key -> number of forks so far
+    steps = []         # (ctxkey, wrapped, [acts])
+    evs = {}           # ctxkey -> [event strings]
+    order = []
+    cur = None         # vid of the running wrapped step
+    origins = {}
+    wf_viol = []
+
+    def ctx_path(key):
+        if key == 'main':
+            return ()
+        if isinstance(key, int):
+            return path[key]
+        if key not in origins:
+            origins[key] = (9000 + len(origins),)
+        return origins[key]
+
+    def add(key, wrapped, act, evstr, what):
+        if not steps or steps[-1][0] != key or steps[-1][1] != wrapped or (wrapped and steps[-1][3]):
+            steps.append([key, wrapped, [], False])
+        steps[-1][2].append(act)
+        if key not in evs:
+            evs[key] = []
+            order.append(key)
+        evs[key].append(evstr)
+        if not wrapped and key != 'main':
+            wf_viol.append((key, what))
+
+    for e in events:
+        k = e[0]
+        if k == 'B':
+            if cur is not None:
+                return None, 'nested step', []
+            cur = e[1]
+            steps.append([cur, True, [], False])
+        elif k == 'E':
+            if cur != e[1]:
+                return None, 'unbalanced step', []
+            # close the step
+            for st in reversed(steps):
+                if st[0] == cur and st[1]:
+                    st[3] = True
+                    break
+            cur = None
+        else:
+            if cur is not None:
+                key, wrapped = cur, True
+            else:
+                org = e[-2] if k == 'K' else e[-1]
+                key, wrapped = (org or 'main'), False
+            if k == 'K':
+                parent = ctx_path(key)
+                j = nforks.get(key, 0)
+                nforks[key] = j + 1
+                path[e[1]] = parent + (j,)
+                add(key, wrapped, 'f', f'K{e[2]}/{e[3]}', f'fork of {e[-1]}')
+            elif k == 'U':
+                add(key, wrapped, 'u', f'U{e[1]}', 'uci')
+            elif k == 'S':
+                add(key, wrapped, f's{e[1]}', f'S{e[1]}:{e[2]}', f'send in {e[4]}')
+            elif k == 'R':
+                add(key, wrapped, f'r{e[1]}', f'R{e[1]}:{e[2]}', f'receive in {e[3]}')
+
+    def ps(t):
+        return '.'.join(map(str, t)) if t else '-'
+    req = []
+    for key, wrapped, acts, _ in steps:
+        if not acts and wrapped:
+            continue
+        req.append(f"{ps(ctx_path(key))}:{1 if wrapped else 0}:{','.join(acts) if acts else '-'}")
+    seen = []
+    for key, wrapped, acts, _ in steps:
+        if acts and key not in seen:
+            seen.append(key)
+    exp = ';'.join(f"{ps(ctx_path(key))}={','.join(evs[key])}" for key in seen)
+    return 'run ' + ' '.join(req), exp + f"|wf={0 if wf_viol else 1}", wf_viol
